@@ -415,6 +415,24 @@ pub fn seed_many_requesters(k: &K, n: u32) -> Sim {
     sc.with(|s| advance(pending_due(s).max(s.w.time + 1))).done()
 }
 
+/// A store with a foreign history: the fields of the stored state that no operation of the current code
+/// writes (the deprecated `rate` and `ibc_id_counter`) hold the values an earlier release left there, not
+/// their instantiate defaults. Edited as JSON text, so that the tree's own types are not involved.
+pub fn foreign_state(mut s: Sim) -> Sim {
+    if let Some(raw) = s.w.kv.m.get(b"state".as_slice()).cloned() {
+        if let Ok(serde_json::Value::Object(mut o)) = serde_json::from_slice::<serde_json::Value>(&raw) {
+            if o.contains_key("rate") {
+                o.insert("rate".into(), serde_json::json!("3"));
+            }
+            if o.contains_key("ibc_id_counter") {
+                o.insert("ibc_id_counter".into(), serde_json::json!(42));
+            }
+            s.w.kv.m.insert(b"state".to_vec(), std::sync::Arc::new(serde_json::to_vec(&serde_json::Value::Object(o)).unwrap()));
+        }
+    }
+    s
+}
+
 /// block time beyond 2^32 seconds and deadlines more than 2^32 seconds apart
 pub fn seed_far_future(k: &K) -> Sim {
     let mut sc = Script::resumed(k).run(stake(&u(1), 100)).run(stake(&u(2), 60));
